@@ -1,5 +1,5 @@
 /* the pipe between PipeWriter and handleRead: write() appends, read() returns an arbitrary prefix of what was asked (symbolic schedule) */
-#define PIPE_CAP 48
+#define PIPE_CAP 32
 uint8_t g_pipe[PIPE_CAP]; uint64_t g_wpos, g_rpos; int g_closed; unsigned g_shortreads;
 static uint32_t in_range(uint32_t lo, uint32_t hi);
 uint64_t ll_write(uint32_t fd, uint8_t* buf, uint64_t n) { for (uint64_t i = 0; i < n; i++) { LL_ASSUME(g_wpos < PIPE_CAP); g_pipe[g_wpos++] = buf[i]; } return n; }
